@@ -713,6 +713,39 @@ def m_iter_next(ex, m, argv, guard, st, callee):
     return guard, option(ex, has, item)
 
 
+def m_iter_zip(ex, m, argv, guard, st, callee):
+    """slice::Iter::zip(slice::Iter): both iterators fresh; one shared position."""
+    a, b = argv[0], argv[1]
+    for it in (a, b):
+        if not (isinstance(it, Model) and it.kind == 'slice_iter' and z3.is_bv_value(zsimp(it.f['pos'])) and zsimp(it.f['pos']).as_long() == 0):
+            raise Unsupported("zip of %r" % (it,))
+    return guard, Model('zip_iter', a=a, b=b, pos=bv(0, 64))
+
+
+def m_zip_next(ex, m, argv, guard, st, callee):
+    ref = argv[0]
+    if not isinstance(ref, PlaceRef):
+        raise Unsupported("Zip::next through %s" % type(ref).__name__)
+    z = ex.read_ref(st, ref)
+    if not (isinstance(z, Model) and z.kind == 'zip_iter'):
+        raise Unsupported("not a modelled Zip: %r" % (z,))
+    a, b, pos = z.f['a'], z.f['b'], z.f['pos']
+    has = zand(_has(a, pos), _has(b, pos))
+    ia, ib = _item_or_none(a, pos), _item_or_none(b, pos)
+    na, nb = _advance(a, pos), _advance(b, pos)
+    # a Zip stops at the shorter side: the shared position saturates at the smaller backing store
+    npos = na if (z3.is_bv_value(zsimp(na)) and z3.is_bv_value(zsimp(nb)) and zsimp(na).as_long() <= zsimp(nb).as_long()) else nb
+    ex.write_cell(st, ref.cell, ref.path, Model('zip_iter', a=a, b=b, pos=npos))
+    p = zsimp(npos)
+    if z3.is_bv_value(p) and not ref.path:
+        st.ckey[ref.cell] = p.as_long()
+    else:
+        st.ckey.pop(ref.cell, None)
+    if ia is None or ib is None:
+        return guard, EnumV(ex.defs.find_enum('Option'), bv(0, 64), {'None': ()})
+    return guard, option(ex, zsimp(has), Agg([ia, ib]))
+
+
 def m_iter_peek(ex, m, argv, guard, st, callee):
     it = _iter_get(ex, st, argv[0])
     pos = it.f['pos']
@@ -1996,6 +2029,10 @@ def register(ex):
     A(r'^(?:std::collections::)?HashMap::<u32, \(.*\)>::new$', m_hmap_new, 'HashMap<u32, V>::new (fixed slots)')
     A(r'^<(?:std::collections::)?HashMap<u32, \(.*\)> as (?:std::default::)?Default>::default$', m_hmap_new, 'HashMap<u32, V>::default (fixed slots)')
     A(r'^(?:std::collections::)?HashMap::<u32, \(.*\)>::(get|contains_key)::<u32>$', m_hmap_get, 'HashMap<u32, V>::get/contains_key (fixed slots)')
+    A(r'^(?:std::collections::)?HashMap::<u32, [\w:]+>::(get|contains_key)::<u32>$', m_hmap_get, 'HashMap<u32, Struct>::get/contains_key (fixed slots)')
+    A(r'^<(?:std::slice::)?Iter<.*> as (?:std::iter::)?Iterator>::zip::<(?:std::slice::)?Iter<.*>>$', m_iter_zip, 'slice::Iter::zip(slice::Iter)')
+    A(r'^<(?:std::iter::)?Zip<(?:std::slice::)?Iter<.*>, (?:std::slice::)?Iter<.*>> as (?:std::iter::)?IntoIterator>::into_iter$', m_identity_iter, 'IntoIterator for Zip (identity)')
+    A(r'^<(?:std::iter::)?Zip<(?:std::slice::)?Iter<.*>, (?:std::slice::)?Iter<.*>> as (?:std::iter::)?Iterator>::next$', m_zip_next, 'Zip<slice::Iter, slice::Iter>::next')
     A(r'^(?:std::collections::)?HashMap::<u32, \(.*\)>::insert$', m_hmap_insert, 'HashMap<u32, V>::insert (fixed slots, overflow is a bound obligation)')
     A(r'^(?:std::collections::)?HashSet::<u32>::new$', m_hashset_new, 'HashSet<u32>::new (bit set)')
     A(r'^(?:std::collections::)?HashSet::<u32>::insert$', m_hashset_insert, 'HashSet<u32>::insert (bit set)')
